@@ -66,9 +66,9 @@ struct Obs {
 
 std::atomic<long> g_held{0}, g_maxHeld{0}, g_bad{0}, g_opsDone{0};
 std::atomic<int> g_inAcquire{0};
-int g_size = 0;
+std::atomic<int> g_size{0};
 std::string dumpState() {
-  return J().kv("held", g_held.load()).kv("size", g_size).kv("threadsInsideAcquire", g_inAcquire.load()).kv("opsDone", g_opsDone.load()).str();
+  return J().kv("held", g_held.load()).kv("size", g_size.load()).kv("threadsInsideAcquire", g_inAcquire.load()).kv("opsDone", g_opsDone.load()).str();
 }
 
 void report(const std::string& msg, const J& d, const char* sub) {
@@ -78,14 +78,14 @@ void report(const std::string& msg, const J& d, const char* sub) {
 // monitor bookkeeping around the real calls
 void onAcquired(Handle& h) {
   Res& res = h.get();
-  if (res.magic != Res::kAlive || res.id < 0 || res.id >= g_size) {
+  if (res.magic != Res::kAlive || res.id < 0 || res.id >= g_size.load(std::memory_order_relaxed)) {
     report("acquire() returned something that is not a live pooled resource", J().kv("id", res.id), "bad-resource");
     return;
   }
   int prev = res.holders.fetch_add(1, std::memory_order_relaxed);
   if (prev != 0) report("one resource is held by two Resource handles at once", J().kv("id", res.id).kv("holders", prev + 1), "exclusivity");
   long now = g_held.fetch_add(1, std::memory_order_relaxed) + 1;
-  if (now > g_size) report("more resources held than the pool's size", J().kv("held", now).kv("size", g_size), "bound");
+  if (now > g_size) report("more resources held than the pool's size", J().kv("held", now).kv("size", g_size.load()), "bound");
   long mx = g_maxHeld.load(std::memory_order_relaxed);
   while (now > mx && !g_maxHeld.compare_exchange_weak(mx, now, std::memory_order_relaxed)) {
   }
@@ -249,7 +249,7 @@ Obs runCase(const Spec& s, long idx) {
 } // namespace
 
 void runC25() {
-  const long n = vrt::g_args.getInt("n", vrt::thorough() ? 5000 : 320);
+  const long n = vrt::g_args.getInt("n", vrt::thorough() ? 5000 : 256);
   vrt::setStateDumper(dumpState);
   vrt::watchdogIdleFlatIsHang(true);
   for (long idx = 0; idx < n; ++idx) {
